@@ -165,6 +165,17 @@ CLAIMS['C05'] = dict(
          'ions, ion_density = sum n. Does not decide numeric totals or provider behaviour for neutrals.',
     technique='exact rational normal forms with formal loop sums, call-argument provenance, guard ordering')
 
+CLAIMS['C17'] = dict(
+    text='Decides structural necessary conditions: in the area and centroid accumulations the loop term is the shoelace / Bourke term '
+         'of the edge (v_i, v_i+1) and the closing term equals it under i -> n-1, i+1 -> 0 for every accumulator (every edge counted '
+         'once for any starting vertex); the area accumulation is the same expression in both properties; cy is cx with x and y '
+         'exchanged in the first factor; the centroid divides by 6 times the signed half-sum and the area is the absolute half-sum '
+         '(orientation independence); volume = 2 pi centroid.x area; the collection total is the sum of voxel volumes; the '
+         'Monte-Carlo estimate accumulates triangle areas cumulatively, looks the triangle up with total_area * uniform(), samples '
+         'inside that triangle\'s own vertices and averages over the requested number of samples. Does not decide exactness for '
+         'concave polygons numerically or unbiasedness (the +1 lookup convention depends on raysect find_index).',
+    technique='exact rational algebra with index substitution (loop term vs closing term), structural wiring checks')
+
 # ---- everything not claimed above is pending / not applicable
 _pending = 'check not built yet in this session (see DESIGN.md build order); not claimed until it is'
 for _p in ['C%02d' % i for i in range(1, 21)]:
